@@ -159,6 +159,12 @@ def _worker_init():
     import warnings
 
     warnings.filterwarnings("ignore")
+    # exploratory aid (never set by MANIFEST commands): run a whole check under another global torch state
+    gs = os.environ.get("VERIF_GLOBAL_STATE")
+    if gs == "float64":
+        import torch
+
+        torch.set_default_dtype(torch.float64)
 
 
 def _run_one(args):
